@@ -237,14 +237,9 @@ Definition xor_data (pad : val) (data : bytes) (p : path) : res bytes :=
   let pad := match pad with VBytes [b] => VInt (Z.of_N (Byte.to_N b)) | _ => pad end in
   match pad with
   | VInt z =>
-      if Z.eqb z 0 then Ok data
-      else match data with
-           | [] => Ok []
-           | _ => if ((0 <=? z) && (z <? 256))%Z then Ok (map (fun b => xor_byte b (byte_of_N (Z.to_N z))) data)
-                  else
-                    (* bytes(b ^ pad ...) with a result outside range(256) *)
-                    Err EValue None
-           end
+      if negb ((0 <=? z) && (z <? 256))%Z then raise EString p      (* integer pad must be in range(256) *)
+      else if Z.eqb z 0 then Ok data
+      else Ok (map (fun b => xor_byte b (byte_of_N (Z.to_N z))) data)
   | VBool _ => unsupported
   | VBytes k =>
       if Nat.leb (length k) 64 && forallb (fun b => Byte.eqb b x00) k then Ok data
@@ -328,7 +323,7 @@ Fixpoint parse (c : con) (cx : ctx) (p : path) (s : istream) {struct c} : res (v
   | CSeek at_ wh =>
       let* a := eval_int cx at_ in
       let* w := eval_int cx wh in
-      let* (r, s') := iseek s a w p in Ok (VInt r, s')
+      let* (r, s') := iseek_user s a w p in Ok (VInt r, s')
   | CStringEncoded c' enc =>
       let* (v, s') := parse c' cx p s in
       match v with
@@ -460,7 +455,7 @@ Fixpoint parse (c : con) (cx : ctx) (p : path) (s : istream) {struct c} : res (v
       let* (_, s2) := iread s1 pad p in Ok (v, s2)
   | CPointer off c' =>
       let* o := eval_int cx off in
-      let* (_, s1) := iseek s o (if (o <? 0)%Z then 2 else 0)%Z p in
+      let* (_, s1) := iseek_user s o (if (o <? 0)%Z then 2 else 0)%Z p in
       let* (v, s2) := parse c' cx p s1 in
       let* (_, s3) := iseek s2 (itell s) 0 p in Ok (v, s3)
   | CPeek c' =>
@@ -537,7 +532,7 @@ Fixpoint parse (c : con) (cx : ctx) (p : path) (s : istream) {struct c} : res (v
           let '(j, tot) := units_needed k dec in
           if Nat.eqb tot k then
             Ok (v, iset_pos s (ipos s + nlen (concat (firstn j units)))%N)
-          else Err EValue None        (* close(): unread bytes remain *)
+          else raise EStream p        (* close(): unread bytes remain -> StreamError *)
       end
   | CProcessXor key c' =>
       let* k := eval cx key in
